@@ -2002,6 +2002,10 @@ bool Parser::parseDirectDeclarator(DeclaratorSyntax*& decltor,
                                 attrList,
                                 absDecltor))
                         return false;
+                    // With a suffix, the attributes are those of the array or
+                    // function declarator: a list has a single parent.
+                    if (decltor != absDecltor)
+                        absDecltor->attrs_ = nullptr;
                     break;
                 }
                 else {
@@ -2018,6 +2022,8 @@ bool Parser::parseDirectDeclarator(DeclaratorSyntax*& decltor,
                                     attrList,
                                     absDecltor))
                             return false;
+                        if (decltor != absDecltor)
+                            absDecltor->attrs_ = nullptr;
                         break;
                     }
                     BT.discard();
@@ -2034,6 +2040,10 @@ bool Parser::parseDirectDeclarator(DeclaratorSyntax*& decltor,
                                 attrList,
                                 parenDecltor))
                         return false;
+                    // Without a suffix, the attributes in front of the parenthesis
+                    // are held by the parenthesized declarator.
+                    if (decltor == parenDecltor)
+                        parenDecltor->attrs_ = attrList;
                     break;
                 }
             }
@@ -2051,6 +2061,8 @@ bool Parser::parseDirectDeclarator(DeclaratorSyntax*& decltor,
 
             if (!decltor)
                 decltor = parenDecltor;
+            if (decltor == parenDecltor)
+                parenDecltor->attrs_ = attrList;
             break;
         }
 
@@ -2066,6 +2078,8 @@ bool Parser::parseDirectDeclarator(DeclaratorSyntax*& decltor,
                             attrList,
                             absDecltor))
                     return false;
+                if (decltor != absDecltor)
+                    absDecltor->attrs_ = nullptr;
                 break;
             }
             diagReporter_.ExpectedFIRSTofDirectDeclarator();
